@@ -148,6 +148,20 @@ def get_fn(sig, form='function'):
            f'    return _Inst(_fid, {collect})\n')
     exec(src, ns)  # pylint: disable=exec-used
     fn = ns['Holder'].make
+  elif form == 'bound_method':
+    # inst.m is a bound method of the function Cls.m; the unbound function (one more
+    # parameter) is configured first in the same process: both are legitimate callables.
+    sep = ', ' if params else ''
+    src = (f'class WithMethod:\n  def m(self{sep}{params}):\n'
+           f'    return _Inst(_fid, {collect})\n')
+    exec(src, ns)  # pylint: disable=exec-used
+    import fiddle as _fdl  # pylint: disable=g-import-not-at-top
+    try:
+      _fdl.Config(ns['WithMethod'].m)
+    except Exception:  # pylint: disable=broad-except
+      pass
+    ns['_keep'] = ns['WithMethod']()
+    fn = ns['_keep'].m
   elif form == 'callable_instance':
     sep = ', ' if params else ''
     src = (f'class CallMe:\n  def __call__(self{sep}{params}):\n'
